@@ -199,6 +199,31 @@ func families() []family {
 			}},
 		{name: "keywords-mixed", doc: "n statements with mixed-case keywords", bytesPer: 30,
 			gen: func(n int) string { return rep(n, "Select a From t Where a Is Null", ";\n") }},
+		// runs of words that the tokenizer looks beyond (first words of two-word keywords) or back from (second words)
+		{name: "compound-start-run", doc: "n times LEFT (first word of a two-word keyword, never completed)", bytesPer: 5,
+			gen: func(n int) string { return rep(n, "LEFT", " ") }},
+		{name: "compound-start-mixed-lines", doc: "n first words of two-word keywords in turn, mixed case, one per line", bytesPer: 7,
+			gen: func(n int) string {
+				ws := []string{"left", "RIGHT", "Full", "outer", "CROSS", "inner", "Natural", "group", "ORDER", "grouping"}
+				var sb strings.Builder
+				for i := 0; i < n; i++ {
+					sb.WriteString(ws[i%len(ws)])
+					sb.WriteByte('\n')
+				}
+				return sb.String()
+			}},
+		{name: "compound-second-run", doc: "n times JOIN / BY / SETS in turn (second words of two-word keywords without their first)", bytesPer: 5,
+			gen: func(n int) string {
+				ws := []string{"JOIN", "BY", "SETS"}
+				var sb strings.Builder
+				for i := 0; i < n; i++ {
+					sb.WriteString(ws[i%len(ws)])
+					sb.WriteByte(' ')
+				}
+				return sb.String()
+			}},
+		{name: "compound-start-placeholders", doc: "n @-parameters named like first words of two-word keywords", bytesPer: 7,
+			gen: func(n int) string { return "SELECT " + rep(n, "@left", ", ") }},
 		{name: "token-limit", doc: "SELECT DISTINCT c,c,... FROM t with exactly n tokens; the last size is MaxTokens+1 (rejected by the token limit)", bytesPer: 2, thoroughOnly: true,
 			gen:   func(n int) string { return "SELECT DISTINCT " + rep((n-3)/2, "c", ",") + " FROM t" },
 			sizes: func(bool) []int { return []int{62501, 125001, 250001, 500001, 1000001} }},
